@@ -119,18 +119,36 @@ class Recs:
         self._lock = threading.Lock()
 
     def add_file(self, section, path):
-        """Index the complete record lines of one section file.  Returns (abort record or None, truncated tail)."""
+        """Index the complete record lines of one section file.  Returns (abort record or None, truncated tail).
+        A call that never finished leaves a truncated line, which may by accident end in '}' (a nested
+        object was complete): the record in front of an abort event and the last record of the file are
+        therefore validated as JSON, and demoted to the truncated tail if they are not."""
         fi = len(self.paths)
         self.paths.append(path)
         self.sections.append(section)
         abort, tail = None, None
         off = 0
+        last = None          # raw text of the most recently indexed record of this file
+
+        def demote_if_truncated():
+            nonlocal tail, last
+            if last is None:
+                return
+            try:
+                json.loads(last)
+            except ValueError:
+                tail = last.decode(errors="replace")
+                self.file.pop()
+                self.off.pop()
+                self.len.pop()
+            last = None
         with open(path, "rb") as f:
             for raw in f:
                 n = len(raw)
                 line = raw.rstrip(b"\r\n")
                 if raw.endswith(b"\n") and line.startswith(b"{") and line.endswith(b"}"):
                     if line.startswith(b'{"e":'):
+                        demote_if_truncated()
                         try:
                             abort = json.loads(line)
                         except ValueError:
@@ -139,9 +157,12 @@ class Recs:
                         self.file.append(fi)
                         self.off.append(off)
                         self.len.append(len(line))
+                        last = line
                 elif line.strip():
                     tail = line.decode(errors="replace")      # a call that never finished
+                    last = None
                 off += n
+        demote_if_truncated()
         return abort, tail
 
     def __len__(self):
@@ -163,12 +184,8 @@ class Recs:
             return fh.read(self.len[i]).decode()
 
     def __iter__(self):
-        for fi, path in enumerate(self.paths):
-            with open(path, "rb") as f:
-                for raw in f:
-                    line = raw.rstrip(b"\r\n")
-                    if raw.endswith(b"\n") and line.startswith(b"{") and line.endswith(b"}") and not line.startswith(b'{"e":'):
-                        yield self.sections[fi], line.decode()
+        for i in range(len(self.off)):
+            yield self.sections[self.file[i]], self.line(i)
 
 
 class MemRecs:
